@@ -69,7 +69,9 @@ static void on_callback(int which)
     char* line = reactq[which][reacth[which]++].line;
     Ctx* outer = cur;
     if(outer) collect(*outer);          // what the outer operation caused so far stays with it
+    int ok; long kk; sk_get_outcome(&ok, &kk);   // the reaction has its own scripted send outcome;
     exec_line(line, true);
+    sk_set_outcome(ok, kk);             // the outer operation keeps its (possibly unconsumed) one
     free(line);
     cur = outer;
   }
